@@ -14,7 +14,11 @@ TRUSTED = ['np.digitize, scipy.sparse.coo_matrix(...).toarray()/sum(axis=0)/mean
            'to indices (count of edges <= v; scatter-add with accumulating duplicates; column sums; C-order chunking)',
            'bin edges come from the real define_hist_bins and are handed to the model as exact rationals',
            'exactness: integer / dyadic amplitudes, so the full and time-summed outputs are compared with ==; the time-averaged output is '
-           'formed by scipy as sum(x * (1/T)) and is compared within 1e-9 * max|weight| (exact when T is a power of two)']
+           'formed by scipy as sum(x * (1/T)) and is compared within 1e-9 * max|weight| (exact when T is a power of two)',
+           'large bin sets (stream holo_large): the model answers with its sparse entries holoCoo (op HOLOCOO) and the harness reads the '
+           'outputs off them (cell [t][a][c] = sum of the entries with row t and column (c+1)+(a+1)(L1+1): Spectra.holo3d_eq, '
+           'C11.unfold_fold, C11.holo_sum_eq, C11.holo_mean_eq); on every case of stream holo_random this reading is compared with the '
+           'model\'s own unfolded full / sum / mean outputs']
 ASSUMPTIONS = ['edges_weakly_increasing: the theorems assume both edge vectors are non-decreasing (validated for every edge vector '
                'produced by define_hist_bins in the run: instance kinds assumption:carrier-edges-not-increasing / am-edges-not-increasing)',
                'amplitudes are finite']
@@ -23,7 +27,14 @@ RULE = ('exhaustive: every assignment of the edge-hitting alphabets {below, nega
         '{(1,1,1),(1,1,2),(1,2,1),(2,1,1)} and independent carrier/AM bin sets with 1..3 bins (amplitudes 1,2,4,...: distinct subset '
         'sums) x {energy, amplitude} x squash_time in {False, sum, mean}; random: T <= 24, M <= 4, K <= 4, 1..8 bins per axis '
         '(linear/log), alphabet + adjacent floats + uniform frequencies, integer/dyadic amplitudes of either sign, vector first-level '
-        'input; malformed: mismatched T / M / K, 2-D second level, non-monotone or empty edges, T = 0. Non-trivial: at least one sample '
+        'input; large bin sets (stream holo_large): 1..3 time samples, (carrier bins + 2)(AM bins + 2) around and far above 2^16 '
+        '(254x254 ... 300x300, 2x40000, 40000x2, 70000x1, 1x70000; linear and log), samples on the edges and in the interiors of the '
+        'highest, lowest and 2^16-boundary bins and out of range, compared with the model through its sparse entries (op HOLOCOO, '
+        'read with holo3d_eq / holo_sum_eq / holo_mean_eq; on every small random case this reading is checked against the model\'s own '
+        'unfolded output); malformed: mismatched T / M / K, 2-D second level, non-monotone or empty edges, T = 0. Every input is '
+        'evaluated as ONE SEQUENCE OF CALLS ON THE SAME ARRAY OBJECTS: the three squash_time settings in one of the 6 orders, a call in '
+        'the other mode, the first setting again; each result is compared with the model and with the triple-loop histogram of a '
+        'pristine copy, and the arrays handed in are compared with the pristine copy after every call. Non-trivial: at least one sample '
         'lands in a cell and at least one is rejected; distinct by content hash.')
 
 LIN = lambda n, lo=1.0: {'lo': lo, 'hi': lo + n, 'n': n, 'scale': 'linear'}   # noqa: E731
@@ -83,8 +94,14 @@ class Exhaustive(Stream):
             F2 = [[[g2[combo[n1 + (t * M + j) * K + k]][1] for k in range(K)] for j in range(M)] for t in range(T)]
             yield combo, e1, e2, F1, F2, A2
 
+    @staticmethod
+    def _seq(combo):
+        """call order of this input: a function of its content only (stable under shrinking / replay)"""
+        return sum((i + 1) * c for i, c in enumerate(combo)) + len(combo)
+
     def impl(self, case):
-        return [_spec.run_holo(F1, F2, A2, e1, e2, case['mode']) for _, e1, e2, F1, F2, A2 in self._inputs(case)]
+        return [_spec.run_holo(F1, F2, A2, e1, e2, case['mode'], seq=self._seq(combo))
+                for combo, e1, e2, F1, F2, A2 in self._inputs(case)]
 
     def ops(self, case, out):
         ops = []
@@ -148,6 +165,12 @@ class Single(Stream):
             # vector first-level input; AM bins more numerous than carrier bins
             {'F1': [1.5, 2.5], 'F2': [[[0.1, 0.6, 1.1]], [[1.6, 2.0, 0.0]]], 'A2': [[[1.0, 2.0, 4.0]], [[8.0, 16.0, 32.0]]],
              'e1': {'lo': 1.0, 'hi': 3.0, 'n': 2, 'scale': 'linear'}, 'e2': {'lo': 0.0, 'hi': 2.0, 'n': 4, 'scale': 'linear'}, 'mode': 'energy'},
+            # round-2 seed C11-4 (energy mode squared the caller's inam2 in place: the first call is right, every later call on
+            # "the same" data is wrong): one in-range sample of amplitude 3, every call order, both modes
+        ] + [{'F1': [[1.5]], 'F2': [[[0.5]]], 'A2': [[[3.0]]], 'e1': e1, 'e2': e2, 'mode': m, 'seq': q}
+             for q in range(6) for m in _spec.MODES] + [
+            {'F1': [[1.5, 5.0], [2.0, 3.0]], 'F2': [[[1.0, 0.5], [1.0, 1.0]], [[0.0, 2.0], [None, 1.5]]],
+             'A2': [[[1.0, 2.0], [4.0, 8.0]], [[3.0, 5.0], [7.0, 2.0]]], 'e1': e1, 'e2': e2, 'mode': 'amplitude', 'seq': 3},
         ]
 
     def generate(self, rng, tier):
@@ -188,18 +211,19 @@ class Single(Stream):
             A2 = [[[a() for _ in range(K)] for _ in range(M)] for _ in range(T)]
             if M == 1 and rng.random() < 0.3:
                 F1 = [r[0] for r in F1]
-            yield {'F1': F1, 'F2': F2, 'A2': A2, 'e1': es1, 'e2': es2, 'mode': rng.choice(_spec.MODES)}
+            yield {'F1': F1, 'F2': F2, 'A2': A2, 'e1': es1, 'e2': es2, 'mode': rng.choice(_spec.MODES), 'seq': rng.randrange(6)}
 
     def _edges(self, case):
         return _spec.make_edges(case['e1']), _spec.make_edges(case['e2'])
 
     def impl(self, case):
         e1, e2 = self._edges(case)
-        return _spec.run_holo(case['F1'], case['F2'], case['A2'], e1, e2, case['mode'])
+        return _spec.run_holo(case['F1'], case['F2'], case['A2'], e1, e2, case['mode'], seq=case.get('seq', 0))
 
     def ops(self, case, out):
         e1, e2 = self._edges(case)
-        return _spec.holo_ops(case['F1'], case['F2'], case['A2'], e1, e2, case['mode'])
+        a = (case['F1'], case['F2'], case['A2'], e1, e2, case['mode'])
+        return _spec.holo_ops(*a) + [_spec.holo_coo_op(*a)]
 
     def _scale(self, case):
         a = np.abs(_spec.arr(case['A2']))
@@ -209,7 +233,8 @@ class Single(Stream):
     def compare(self, case, out, results):
         if isinstance(out, ImplError):
             return 'implementation raised %s' % out['error']
-        return _spec.holo_compare(out, results, len(case['F1']), self._scale(case))
+        return (_spec.holo_compare(out, results[:3], len(case['F1']), self._scale(case))
+                or _spec.holo_coo_vs_model(results[3], results[:3]))
 
     def holds(self, case, out):
         if isinstance(out, ImplError):
@@ -232,13 +257,15 @@ class Single(Stream):
         t = ['mode=' + case['mode'], 'carrier-bins=%d' % (len(e1) - 1), 'am-bins=%d' % (len(e2) - 1),
              'T=%d' % A.shape[0], 'M=%d' % A.shape[1], 'K=%d' % A.shape[2], 'infr-ndim=%d' % np.ndim(case['F1'])]
         t += ['carrier-has:' + c for c in sorted(c1)] + ['am-has:' + c for c in sorted(c2)]
+        if not isinstance(out, ImplError):
+            t.append('calls=' + '>'.join(x.split('/')[-1] for x in out.get('order', [])[:3]))
         return t
 
     def nontrivial(self, case, out):
         if isinstance(out, ImplError) or 'error' in out['none']:
             return False
         c1, c2 = self._cats(case)
-        return any(v != 0 for v in out['none']['v']) and bool((c1 | c2) - {'interior'})
+        return bool(np.any(_spec.vals(out['none']) != 0)) and bool((c1 | c2) - {'interior'})
 
     def shrink(self, case):
         F1, F2, A2 = case['F1'], case['F2'], case['A2']
@@ -254,6 +281,95 @@ class Single(Stream):
         if n and len(F2[0][0]) > 1:
             for k in range(len(F2[0][0])):
                 yield dict(case, F2=[[[c[k]] for c in r] for r in F2], A2=[[[c[k]] for c in r] for r in A2])
+
+
+class Large(Single):
+    """Bin sets whose folded sparse column index (carrier bins + 2) * (AM bins + 2) is around / far above 2^16, a few samples.
+    The model is consulted through its sparse entries (HOLOCOO): its unfolded [T x AM x carrier] output has ~10^5 cells."""
+    name = 'holo_large'
+
+    @staticmethod
+    def _es(n, kind):
+        if kind == 'unit':
+            return {'lo': 1.0, 'hi': 1.0 + n, 'n': n, 'scale': 'linear'}
+        if kind == 'lin':
+            return {'lo': 0.5, 'hi': 40.0, 'n': n, 'scale': 'linear'}
+        return {'lo': 0.5, 'hi': 64.0, 'n': n, 'scale': 'log'}
+
+    @staticmethod
+    def _value(e, b, how):
+        """a frequency for bin b of edge vector e: on its lower edge / in its interior"""
+        lo, hi = float(e[b]), float(e[b + 1])
+        m = (lo + hi) / 2
+        return lo if how == 'edge' or not (lo < m < hi) else m
+
+    def _build(self, rng, n1, n2, k1, k2, mode, T, M, K, seq, where):
+        es1, es2 = self._es(n1, k1), self._es(n2, k2)
+        e1, e2 = _spec.make_edges(es1), _spec.make_edges(es2)
+
+        def pick(e, n, other_n):
+            """bin index: highest / lowest bins, the bins where the folded index crosses 2^16, anywhere; or out of range"""
+            r = rng.random() if where == 'mixed' else 0.0
+            if where == 'top' or r < 0.45:
+                b = n - 1 - rng.choice([0, 0, 1, 2])
+            elif r < 0.6:
+                b = rng.choice([0, 1])
+            elif r < 0.75:
+                b = 65536 // (other_n + 2) - 1 + rng.choice([-2, -1, 0, 1])
+            elif r < 0.9:
+                b = rng.randrange(n)
+            else:
+                return rng.choice([float(e[0]) - 1.0, float(e[-1]), float(e[-1]) + 1.0, None, -3.0])
+            b = min(max(b, 0), n - 1)
+            return self._value(e, b, rng.choice(['edge', 'interior']))
+        F1 = [[pick(e1, n1, n2) for _ in range(M)] for _ in range(T)]
+        F2 = [[[pick(e2, n2, n1) for _ in range(K)] for _ in range(M)] for _ in range(T)]
+        A2 = [[[float(2 ** ((t * M + j) * K + k)) * rng.choice([1.0, 1.0, -1.0, 1.5]) for k in range(K)] for j in range(M)] for t in range(T)]
+        return {'F1': F1, 'F2': F2, 'A2': A2, 'e1': es1, 'e2': es2, 'mode': mode, 'seq': seq}
+
+    SIZES = [(300, 300), (254, 254), (255, 254), (255, 255), (2, 40000), (40000, 2), (70000, 1), (1, 70000), (511, 127), (1000, 100)]
+
+    def corpus(self):
+        import random
+        rng = random.Random(11)
+        cs = []
+        # round-2 seed C11-3 (bin indices cast to uint16: the folded index wraps modulo 2^16): samples in the highest AM and
+        # carrier bins of 300 x 300 bins, both modes; the 2^16 boundary itself (254 x 254: 256 * 256 columns); lopsided bin sets
+        for i, ((n1, n2), mode) in enumerate([((300, 300), 'energy'), ((300, 300), 'amplitude'), ((254, 254), 'energy'),
+                                              ((255, 255), 'amplitude'), ((2, 40000), 'energy'), ((40000, 2), 'amplitude'),
+                                              ((70000, 1), 'energy'), ((1, 70000), 'amplitude')]):
+            cs.append(self._build(rng, n1, n2, 'unit', 'unit', mode, 2, 1, 2, i, 'top'))
+        cs.append(self._build(rng, 300, 300, 'lin', 'log', 'energy', 3, 2, 2, 2, 'mixed'))
+        return cs
+
+    def generate(self, rng, tier):
+        for _ in range(60 if tier == 'thorough' else 7):
+            n1, n2 = rng.choice(self.SIZES) if rng.random() < 0.7 else (rng.randint(200, 400), rng.randint(200, 400))
+            yield self._build(rng, n1, n2, rng.choice(['unit', 'lin', 'log']), rng.choice(['unit', 'lin', 'log']), rng.choice(_spec.MODES),
+                              rng.choice([1, 2, 3]), rng.choice([1, 2]), rng.choice([1, 2, 3]), rng.randrange(6),
+                              rng.choice(['mixed', 'mixed', 'top']))
+
+    def ops(self, case, out):
+        e1, e2 = self._edges(case)
+        return [_spec.holo_coo_op(case['F1'], case['F2'], case['A2'], e1, e2, case['mode'])]
+
+    def compare(self, case, out, results):
+        if isinstance(out, ImplError):
+            return 'implementation raised %s' % out['error']
+        return _spec.holo_compare_coo(out, results[0], self._scale(case))
+
+    def tags(self, case, out):
+        e1, e2 = self._edges(case)
+        cols = (len(e1) + 1) * (len(e2) + 1)
+        t = ['mode=' + case['mode'], 'scales=%s/%s' % (case['e1']['scale'], case['e2']['scale']),
+             'folded-columns:' + ('<2^16' if cols < 65536 else '=2^16' if cols == 65536 else '>2^16'),
+             'bins=%dx%d' % (len(e1) - 1, len(e2) - 1) if (len(e1) - 1, len(e2) - 1) in self.SIZES else 'bins=other']
+        if not isinstance(out, ImplError) and 'error' not in out['none']:
+            nz = np.flatnonzero(_spec.vals(out['none']))
+            na, nc = len(e2) - 1, len(e1) - 1
+            if any((int(i) % nc + 1) + ((int(i) % (na * nc)) // nc + 1) * (nc + 2) >= 65536 for i in nz):
+                t.append('has-sample-with-folded-index>=2^16')
+        return t
 
 
 class Malformed(Stream):
@@ -297,7 +413,7 @@ class Malformed(Stream):
                 s2, s3 = s2[:2], s3[:2]
             mk = lambda s: np.array([float(rng.randint(-1, 6)) for _ in range(int(np.prod(s)))]).reshape(s).tolist()  # noqa: E731
             yield {'F1': mk(s1), 'F2': mk(s2), 'A2': mk(s3), 'e1': [1.0, 2.0, 4.0, 5.0], 'e2': [0.0, 3.0, 5.0],
-                   'mode': rng.choice(_spec.MODES), 'why': why}
+                   'mode': rng.choice(_spec.MODES), 'why': why, 'seq': rng.randrange(6)}
 
     def _arrays(self, case):
         xs = [_spec.arr(case[k]) for k in ('F1', 'F2', 'A2')]
@@ -307,7 +423,7 @@ class Malformed(Stream):
 
     def impl(self, case):
         F1, F2, A2 = self._arrays(case)
-        return _spec.run_holo(F1, F2, A2, case['e1'], case['e2'], case['mode'])
+        return _spec.run_holo(F1, F2, A2, case['e1'], case['e2'], case['mode'], seq=case.get('seq', 0))
 
     def ops(self, case, out):
         F1, F2, A2 = self._arrays(case)
@@ -321,8 +437,8 @@ class Malformed(Stream):
     def holds(self, case, out):
         if isinstance(out, ImplError):
             return [Failure('raises:' + out['error'], out['msg'])]
-        fs = []
         why = case['why']
+        fs = [] if why == 'ok' else _spec.modified_failures(out)     # (holo_holds reports them for 'ok')
         if why in ('T-differs', 'M-differs', 'K-differs', 'vector-vs-2d'):
             for nm, _ in _spec.SQUASH:
                 if out[nm].get('error') != 'ValueError':
@@ -346,4 +462,4 @@ class Malformed(Stream):
         return case['why'] != 'ok'
 
 
-STREAMS = [Exhaustive(), Single(), Malformed()]
+STREAMS = [Exhaustive(), Single(), Large(), Malformed()]
